@@ -58,7 +58,13 @@ def r2_compare(res, facts):
     r = res.rule('C16-R2', 'NodeSortKeyCompare::compare, interpreted over {NaN / < / = / >} x {ascending, descending} x {last key, more keys} x {number, text}: NaN sorts first and ties NaN, '
                  'descending negates a non-zero result only, a tie on a non-last key recurses with the next key index; operator() is compare(..) < 0', floor=36)
     a = facts.asts('NodeSorter::NodeSortKeyCompare::compare')[0]
-    pid = {p['n']: p['id'] for p in a['params']}
+    if len(a['params']) != 3:
+        raise AnalysisBroken('NodeSortKeyCompare::compare: %d parameters (lhs, rhs, key index expected)' % len(a['params']))
+    LHS, RHS, KEY = (p['id'] for p in a['params'])          # by position, not by name
+
+    def side(e):
+        e = strip_casts(e)
+        return {LHS: 'lhs', RHS: 'rhs'}.get(e.get('id') if e is not None else None, pp(e) if e is not None else '?')
     cases = []
     nums = [(NAN, NAN, 0), (NAN, 1.0, -1), (1.0, NAN, 1), (1.0, 2.0, -1), (2.0, 1.0, 1), (1.5, 1.5, 0)]
     for (n1, n2, base), desc, nkeys in itertools.product(nums, (False, True), (1, 2)):
@@ -79,8 +85,7 @@ def r2_compare(res, facts):
             if n == 'size':
                 return nkeys
             if n == 'getNumberResult':
-                which = strip_casts(c['args'][2])
-                return n1 if which.get('n') == 'theLHS' else n2
+                return n1 if side(c['args'][2]) == 'lhs' else n2
             if n == 'isNaN':
                 return int(m.ev(c['args'][0]) == NAN)
             if n in ('lessThan', 'greaterThan', 'equal', 'lessThanOrEqual', 'greaterThanOrEqual'):
@@ -89,8 +94,7 @@ def r2_compare(res, facts):
                     return 0
                 return int({'lessThan': x < y, 'greaterThan': x > y, 'equal': x == y, 'lessThanOrEqual': x <= y, 'greaterThanOrEqual': x >= y}[n])
             if n == 'getStringResult':
-                which = strip_casts(c['args'][2])
-                return 'S1' if which.get('n') == 'theLHS' else 'S2'
+                return 'S1' if side(c['args'][2]) == 'lhs' else 'S2'
             if n == 'doCollationCompare':
                 x, y = m.ev(c['args'][1]), m.ev(c['args'][2])
                 if (x, y) == ('S1', 'S2'):
@@ -101,11 +105,11 @@ def r2_compare(res, facts):
             if n in ('getLanguageString', 'getCaseOrder'):
                 return 0
             if n == 'compare':
-                l, rr, idx = strip_casts(c['args'][0]), strip_casts(c['args'][1]), m.ev(c['args'][2])
-                rec.append((l.get('n'), rr.get('n'), idx))
+                idx = m.ev(c['args'][2])
+                rec.append((side(c['args'][0]), side(c['args'][1]), idx))
                 return Next()
             return NotImplemented
-        m = Machine({pid['theKeyIndex']: 0}, call_hook=hook)
+        m = Machine({KEY: 0}, call_hook=hook)
         try:
             got = m.call(a['body'])
         except Unsupported as u:
@@ -118,7 +122,7 @@ def r2_compare(res, facts):
             want = 0
         site = 'compare(%s %s, %s, keys=%d)' % (kind, ('%s vs %s' % (n1, n2)) if kind == 'number' else 'collation=%d' % base, 'descending' if desc else 'ascending', nkeys)
         isnext = isinstance(want, Next)
-        if got == want and (not isnext or rec == [('theLHS', 'theRHS', 1)]):
+        if got == want and (not isnext or rec == [('lhs', 'rhs', 1)]):
             r.ok(site, str(got))
         else:
             r.violation(site, 'comparator yields %s%s, required %s' % (got, (' with operands ' + str(rec)) if rec and isnext else '', want), common.file_line(a))
@@ -130,8 +134,8 @@ def r2_compare(res, facts):
         if e is not None and e.get('k') == 'Cond':
             c = strip_casts(e['c']); t = strip_casts(e['t']); f = strip_casts(e['f'])
             ok = c.get('k') == 'Bin' and c['op'] == '<' and strip_casts(c['rhs']).get('cv') == 0 and strip_casts(c['lhs']).get('n') == 'compare' and t.get('cv') == 1 and f.get('cv') == 0
-            args = [strip_casts(x).get('n') for x in strip_casts(c['lhs'])['args'][:2]] if ok else []
-            ok = ok and args == ['theLHS', 'theRHS']
+            args = [strip_casts(x).get('id') for x in strip_casts(c['lhs'])['args'][:2]] if ok else []
+            ok = ok and args == [p['id'] for p in op['params'][:2]]
         elif e is not None and e.get('k') == 'Bin':
             ok = e['op'] == '<' and strip_casts(e['rhs']).get('cv') == 0 and strip_casts(e['lhs']).get('n') == 'compare'
         else:
@@ -315,7 +319,10 @@ def r5_reentrancy(res, facts):
         r.ok(site, 'does not use the shared sorter')
     elif local and guard is not None:
         # the guard precedes the first use of the key vector
-        first_keys = min([x.get('l') or 0 for x in walk(a['body']) if x.get('k') == 'Decl' and any(v['n'] == 'keys' for v in x.get('vars', []))] or [0])
+        first_keys = min([x.get('l') or 0 for x in walk(a['body']) if x.get('k') == 'Decl' and
+                          any(v.get('init') is not None and any((c.get('n') or '') == 'getSortKeys' for c in calls(v['init'])) for v in x.get('vars', []))] or [0])
+        if first_keys == 0:
+            raise AnalysisBroken('ElemForEach::sortChildren: no local takes the key vector of the sorter (getSortKeys())')
         if (guard.get('l') or 0) <= first_keys:
             r.ok(site, 'shared sorter only while its key vector is empty, else a local NodeSorter')
         else:
